@@ -64,6 +64,11 @@ func (h *Helium) Subscribe(ctx context.Context) (uuid.UUID, <-chan types.Service
 
 // Unsubscribe .
 func (h *Helium) Unsubscribe(ID uuid.UUID) {
+	// the dispatcher may be blocked offering a status to this very subscriber, which
+	// does not read any more: wake it up, otherwise it never gets to the unsubscription
+	if entry, ok := h.subs.Get(ID.ID()); ok {
+		entry.cancel()
+	}
 	h.unsubChan <- ID.ID()
 }
 
